@@ -52,6 +52,20 @@ type actionOp struct {
 	FailFM    []int    `json:"fail_fm,omitempty"`  // which FindMissing calls of this action fail
 	FailPut   []int    `json:"fail_put,omitempty"` // CAS Put of these digests fails
 	FailFinal bool     `json:"fail_final,omitempty"`
+	// The caller's context is cancelled at a scripted point of the action:
+	// "start" (before Execute), "upload" (before the CancelN-th upload of the
+	// innermost executor, i.e. between Puts of the batching layer), "fm"
+	// (while the CancelN-th FindMissing of the action is in progress), "put"
+	// (while the CancelN-th CAS Put of the action is in progress), "flush"
+	// (after the innermost executor returned, before the flush), "final"
+	// (after the flush, before the AC / historical-response write).
+	// CancelErr: the call during which the cancellation happens returns
+	// CANCELLED itself (otherwise the backend still completes it).  Every
+	// storage call entered with a done context returns CANCELLED, like a
+	// gRPC client does.
+	Cancel    string `json:"cancel,omitempty"`
+	CancelN   int    `json:"cancel_n,omitempty"`
+	CancelErr bool   `json:"cancel_err,omitempty"`
 }
 
 type history struct {
@@ -68,7 +82,7 @@ func (area) Requires() string {
 }
 func (area) Check() string { return "check_case" }
 func (area) Rule() string {
-	return "histories of 1-4 actions run through caching(flushing(fake local)) over one batched store: 0-12 uploads per action from a universe of 12 blobs with duplicates, roles file/tree/stdout/stderr/unreferenced, batch size 1-5, upload concurrency 1-3, CAS pre-populated with a random subset, exit code / status / do_not_cache scripted, failures scripted per FindMissing call, per digest Put and for the final AC / historical-response write; non-trivial = at least one storage failure and at least one flush triggered by a full batch; distinct by hash of the case term"
+	return "histories of 1-4 actions run through caching(flushing(fake local)) over one batched store: 0-12 uploads per action from a universe of 12 blobs with duplicates, roles file/tree/stdout/stderr/unreferenced, batch size 1-5, upload concurrency 1-3, CAS pre-populated with a random subset, exit code / status / do_not_cache scripted, failures scripted per FindMissing call, per digest Put and for the final AC / historical-response write; in 35% of the actions the caller's context is cancelled at a scripted point (before the action, between uploads, while a FindMissing or a CAS Put is in progress, before the flush, before the final write), storage calls entered with a done context return CANCELLED; non-trivial = at least one storage failure and at least one flush triggered by a full batch; distinct by hash of the case term"
 }
 
 var roles = []string{"file", "file", "tree", "stdout", "stderr", "", ""}
@@ -121,6 +135,18 @@ func (area) Generate(r *rng.R, thorough bool, index int) json.RawMessage {
 			}
 		}
 		a.FailFinal = r.Chance(15)
+		if r.Chance(35) {
+			a.Cancel = []string{"start", "upload", "upload", "fm", "fm", "put", "put", "put", "flush", "final"}[r.Intn(10)]
+			switch a.Cancel {
+			case "upload":
+				a.CancelN = r.Intn(nb + 1)
+			case "fm":
+				a.CancelN = r.Intn(4)
+			case "put":
+				a.CancelN = r.Intn(6)
+			}
+			a.CancelErr = r.Chance(50)
+		}
 		h.Ops = append(h.Ops, a)
 	}
 	data, _ := json.Marshal(h)
@@ -164,9 +190,10 @@ func (c countingReader) Close() error { *c.closes++; return nil }
 // ---- fake storage ------------------------------------------------------------
 
 type storageCall struct {
-	kind string // fm, put, ac, hist
-	args []int  // fm: digests asked (sorted); put: the digest
-	code int
+	kind    string // fm, put, ac, hist
+	args    []int  // fm: digests asked (sorted); put: the digest
+	code    int
+	missing int // fm: number of digests reported missing
 }
 
 type fakeStorage struct {
@@ -176,8 +203,12 @@ type fakeStorage struct {
 	ac       map[string][]int // action digest hash -> refs of stored result
 	log      []storageCall
 	fmCount  int
+	putCount int
 	script   *actionOp
+	cancel   func() // cancels the context of the action being executed
 }
+
+func cancelled() error { return status.Error(codes.Canceled, "context canceled") }
 
 type fakeCAS struct {
 	blobstore.BlobAccess
@@ -205,14 +236,26 @@ func (f fakeCAS) FindMissing(ctx context.Context, digests digest.Set) (digest.Se
 	sort.Ints(args)
 	k := s.fmCount
 	s.fmCount++
+	if ctx.Err() != nil {
+		s.log = append(s.log, storageCall{kind: "fm", args: args, code: int(codes.Canceled)})
+		return digest.EmptySet, cancelled()
+	}
+	if s.script.Cancel == "fm" && s.script.CancelN == k {
+		s.cancel()
+		if s.script.CancelErr {
+			s.log = append(s.log, storageCall{kind: "fm", args: args, code: int(codes.Canceled)})
+			return digest.EmptySet, cancelled()
+		}
+	}
 	for _, x := range s.script.FailFM {
 		if x == k {
 			s.log = append(s.log, storageCall{kind: "fm", args: args, code: int(codes.Unavailable)})
 			return digest.EmptySet, status.Error(codes.Unavailable, "scripted FindMissing failure")
 		}
 	}
-	s.log = append(s.log, storageCall{kind: "fm", args: args})
-	return missing.Build(), nil
+	missingSet := missing.Build()
+	s.log = append(s.log, storageCall{kind: "fm", args: args, missing: missingSet.Length()})
+	return missingSet, nil
 }
 
 func (f fakeCAS) Put(ctx context.Context, d digest.Digest, b buffer.Buffer) error {
@@ -223,6 +266,10 @@ func (f fakeCAS) Put(ctx context.Context, d digest.Digest, b buffer.Buffer) erro
 		b.Discard()
 		s.mu.Lock()
 		defer s.mu.Unlock()
+		if ctx.Err() != nil {
+			s.log = append(s.log, storageCall{kind: "hist", code: int(codes.Canceled)})
+			return cancelled()
+		}
 		if s.script.FailFinal {
 			s.log = append(s.log, storageCall{kind: "hist", code: int(codes.ResourceExhausted)})
 			return status.Error(codes.ResourceExhausted, "scripted historical response write failure")
@@ -231,6 +278,21 @@ func (f fakeCAS) Put(ctx context.Context, d digest.Digest, b buffer.Buffer) erro
 		s.log = append(s.log, storageCall{kind: "hist"})
 		return nil
 	}
+	s.mu.Lock()
+	k := s.putCount
+	s.putCount++
+	done := ctx.Err() != nil
+	if !done && s.script.Cancel == "put" && s.script.CancelN == k {
+		s.cancel()
+		done = s.script.CancelErr
+	}
+	if done {
+		s.log = append(s.log, storageCall{kind: "put", args: []int{i}, code: int(codes.Canceled)})
+		s.mu.Unlock()
+		b.Discard()
+		return cancelled()
+	}
+	s.mu.Unlock()
 	fail := false
 	for _, x := range s.script.FailPut {
 		if x == i {
@@ -289,6 +351,10 @@ func (f fakeAC) Put(ctx context.Context, d digest.Digest, b buffer.Buffer) error
 	if err != nil {
 		panic(err)
 	}
+	if ctx.Err() != nil {
+		s.log = append(s.log, storageCall{kind: "ac", code: int(codes.Canceled)})
+		return cancelled()
+	}
 	if s.script.FailFinal {
 		s.log = append(s.log, storageCall{kind: "ac", code: int(codes.ResourceExhausted)})
 		return status.Error(codes.ResourceExhausted, "scripted AC write failure")
@@ -337,6 +403,9 @@ func (l *fakeLocal) Execute(ctx context.Context, filePool pool.FilePool, monitor
 		response.Status = status.New(codes.Code(l.script.Status), "scripted execution failure").Proto()
 	}
 	for bi, b := range l.script.Blobs {
+		if l.script.Cancel == "upload" && l.script.CancelN == bi {
+			l.s.cancel()
+		}
 		cnt := new(int)
 		l.closes = append(l.closes, cnt)
 		buf := buffer.NewCASBufferFromReader(blobDigest[b.D], countingReader{Reader: strings.NewReader(string(blobData[b.D])), closes: cnt}, buffer.UserProvided)
@@ -360,6 +429,9 @@ func (l *fakeLocal) Execute(ctx context.Context, filePool pool.FilePool, monitor
 				response.Result.StderrDigest = digestProto(b.D)
 			}
 		}
+	}
+	if l.script.Cancel == "upload" && l.script.CancelN >= len(l.script.Blobs) {
+		l.s.cancel()
 	}
 	return response
 }
@@ -439,8 +511,14 @@ func (area) Execute(raw json.RawMessage) (term string, info *hcommon.Info, err e
 	// compares this order with main.go on every run).
 	executor := builder.NewCachingBuildExecutor(
 		builder.NewStorageFlushingBuildExecutor(local, func(ctx context.Context) error {
+			if st.script.Cancel == "flush" {
+				st.cancel()
+			}
 			err := flush(ctx)
 			flushObs = observedCall{ret: int(status.Code(err)), calls: local.takeLog()}
+			if st.script.Cancel == "final" {
+				st.cancel()
+			}
 			return err
 		}),
 		fakeCAS{s: st}, fakeAC{s: st}, browserURL)
@@ -463,6 +541,15 @@ func (area) Execute(raw json.RawMessage) (term string, info *hcommon.Info, err e
 		}
 		st.script = &a
 		st.fmCount = 0
+		st.putCount = 0
+		ctx, cancel := context.WithCancel(context.Background())
+		st.cancel = cancel
+		if a.Cancel != "" {
+			info.Outs["cancel-"+a.Cancel]++
+		}
+		if a.Cancel == "start" {
+			cancel()
+		}
 		local.script = &a
 		local.closes = nil
 		local.putObs = nil
@@ -475,8 +562,35 @@ func (area) Execute(raw json.RawMessage) (term string, info *hcommon.Info, err e
 			ActionDigest: actionDigest,
 			Action:       &remoteexecution.Action{DoNotCache: a.DNC},
 		}
-		response := executor.Execute(context.Background(), nil, nil, digestFunction, request, nil)
+		response := executor.Execute(ctx, nil, nil, digestFunction, request, nil)
 		finalCalls := local.takeLog()
+		cancel()
+		noteUnissued := func(o observedCall) {
+			missing, nput, failed := -1, 0, false
+			for _, c := range o.calls {
+				switch c.kind {
+				case "fm":
+					if c.code == 0 {
+						missing = c.missing
+					}
+				case "put":
+					nput++
+					if c.code != 0 {
+						failed = true
+					}
+				}
+			}
+			if missing >= 0 && nput < missing {
+				info.Outs["put-not-issued"]++
+				if !failed {
+					info.Outs["put-not-issued-without-put-failure"]++
+				}
+			}
+		}
+		for _, o := range local.putObs {
+			noteUnissued(o)
+		}
+		noteUnissued(flushObs)
 
 		info.Events++
 		info.Ops["action"]++
